@@ -1,7 +1,63 @@
+import ElvisVerif.Model.Sim
 import Driver.Common
-/-! Line-protocol handlers for C13 (sub-commands `c13` / `c13-*`). -/
+/-! Line-protocol handlers for C13 (sub-command `c13`). -/
 namespace Driver.C13
+open Elvis.Sim
 
-def dispatch (_sub : String) (_i _o : IO.FS.Stream) : Option (IO Unit) := none
+def parseStatus (s : String) : Option Status :=
+  if s == "exited" then some .exited
+  else if s == "timedout" then some .timedOut
+  else if s.startsWith "s" then (s.drop 1).toNat?.map .status
+  else none
+
+def showStatus : Status → String
+  | .status n => s!"s{n}"
+  | .exited => "exited"
+  | .timedOut => "timedout"
+
+def parseList (s : String) : List String := if s == "-" then [] else s.splitOn ","
+
+def parseReq (s : String) : Option Req :=
+  match s.splitOn ":" with
+  | [t, st] => do pure ((← t.toNat?), (← parseStatus st))
+  | _ => none
+
+def parseRoutine (s : String) : Option Routine :=
+  match s.splitOn ":" with
+  | [a, b] => do pure ⟨(← a.toNat?), (← b.toNat?)⟩
+  | _ => none
+
+def showEv : Ev → String
+  | .pre r => s!"p{r}"
+  | .post r => s!"q{r}"
+
+def step (_ : Unit) (ws : List String) : Unit × String :=
+  match ws with
+  | ["case", id] => ((), s!"case {id}")
+  | "scn" :: _ => ((), "scn")
+  | ["barrier", size, prog, sched] =>
+    match size.toNat?, (parseList prog).mapM parseRoutine, (parseList sched).mapM (·.toNat?) with
+    | some n, some p, some sc =>
+      let s := run (init p n) sc
+      ((), "log " ++ (if s.log.isEmpty then "-" else " ".intercalate (s.log.map showEv)))
+    | _, _, _ => ((), "bad-op")
+  | ["status", timeout, reqs] =>
+    match (parseList reqs).mapM parseReq with
+    | none => ((), "bad-op")
+    | some rq =>
+      let cap := Elvis.Gen.shutdownChannelCapacity
+      if timeout == "-" then
+        match runInternet cap rq none false with
+        | some (t, s) => ((), s!"ret {t} {showStatus s}")
+        | none => ((), "ret never")
+      else match timeout.toNat? with
+        | some d =>
+          let (t, s) := runInternetWithTimeout cap rq d false
+          ((), s!"ret {t} {showStatus s}")
+        | none => ((), "bad-op")
+  | _ => ((), "bad-op")
+
+def dispatch (sub : String) (i o : IO.FS.Stream) : Option (IO Unit) :=
+  if sub == "c13" then some (Driver.loop i o step ()) else none
 
 end Driver.C13
